@@ -5,7 +5,10 @@
 (* Mode "build": B is a copy of A0 changed by up to MaxEdits edits         *)
 (* (representable and not), then the scenario of the property runs:        *)
 (* Build(A,B); on a copy T of A: Apply forward, Build(T,B), Apply reverse, *)
-(* Build(A,T), XML export/load, Apply of the loaded list.                  *)
+(* Build(A,T), XML export/load, Apply of the loaded list.  The scenario    *)
+(* also runs when TOO_COMPLEX is only one of the acceptable answers        *)
+(* (Ambig), since the library may answer 0 there; after a certain          *)
+(* TOO_COMPLEX the returned list is applied once (must fail and undo).     *)
 (* Mode "hand": a hand-built list of up to MaxHand entries over an         *)
 (* alphabet of well- and ill-matching entries is applied to a copy of A0   *)
 (* with every flag value in ApplyFlags, then in the other direction, then  *)
@@ -18,7 +21,7 @@
 (***************************************************************************)
 EXTENDS Diff, Json
 
-CONSTANTS A0, Vals, Mems, InfoKeys, MaxEdits, MaxHand, Mode, ApplyFlags
+CONSTANTS A0, Vals, Mems, InfoKeys, MaxEdits, MaxHand, MinLen, Mode, ApplyFlags
 VARIABLES B, T, D, D2, D3, ret, bret, fl, pc, ned, chk, hist
 
 vars == <<B, T, D, D2, D3, ret, bret, fl, pc, ned, chk, hist>>
@@ -81,6 +84,7 @@ Full == Core
   \cup {InfoE(ad[1], ad[2], "k", "a", "b") : ad \in BadAddr}
   \cup {InfoE(TopoD, 0, n, "a", "b") : n \in InfoKeys \ KeysOf(A0.tinfos)}
   \cup {SizeE(AD(k), AI(k), <<1, 0>>, <<2, 0>>) : k \in (1..N0) \ Numa}
+  \cup {SizeE(AD(k), AI(k), <<0, 0>>, <<1, 0>>) : k \in (1..N0) \ Numa}     \* "old" equal to the memory a non-NUMA object has
   \cup {SizeE(ad[1], ad[2], <<1, 0>>, <<2, 0>>) : ad \in BadAddr \cup {<<TopoD, 0>>}}
   \cup {SizeE(AD(k), AI(k), <<1, 0>>, <<1, 0>>) : k \in Numa}
   \cup {OtherE("complex", AD(N0), AI(N0)), OtherE("badtype", 0, 0), OtherE("badattr", 0, 0)}
@@ -103,7 +107,8 @@ Edit == /\ Mode = "build" /\ pc = "start" /\ ned < MaxEdits
         /\ ned' = ned + 1 /\ chk' = WF(B')
         /\ UNCHANGED <<T, D, D2, D3, ret, bret, fl, pc>>
 
-Build1 == /\ Mode = "build" /\ pc = "start"
+\* MinLen > 0 (simulation runs) postpones the end of the choice phase, so that random walks are long
+Build1 == /\ Mode = "build" /\ pc = "start" /\ ned >= MinLen
           /\ LET r == ModelBuild(A0, B) IN
                /\ D' = r.E /\ ret' = r.ret /\ bret' = r.ret
                /\ chk' = BuildRel(A0, B, r.ret, r.E)
@@ -112,7 +117,7 @@ Build1 == /\ Mode = "build" /\ pc = "start"
           /\ H([a |-> "build", dd |-> 1, x |-> 1, y |-> 2, flags |-> 0])
           /\ UNCHANGED <<B, T, D2, D3, fl, ned>>
 
-BuildBadFlags == /\ Mode = "build" /\ pc = "start" /\ ned = 0
+BuildBadFlags == /\ Mode = "build" /\ pc = "start" /\ ned = 0 /\ MinLen = 0
                  /\ \E f \in {1, 2} : H([a |-> "build", dd |-> 1, x |-> 1, y |-> 2, flags |-> f])
                  /\ ret' = -1 /\ pc' = "done" /\ chk' = TRUE
                  /\ UNCHANGED <<B, T, D, D2, D3, bret, fl, ned>>
@@ -166,7 +171,7 @@ BuildScenario ==
 AddEntry == /\ Mode = "hand" /\ pc = "start" /\ Len(D) < MaxHand
             /\ \E e \in Alpha(D) : D' = Append(D, e)
             /\ UNCHANGED <<B, T, D2, D3, ret, bret, fl, pc, ned, chk, hist>>
-Go == /\ Mode = "hand" /\ pc = "start" /\ pc' = "mk"
+Go == /\ Mode = "hand" /\ pc = "start" /\ pc' = "mk" /\ (Len(D) >= MinLen \/ Alpha(D) = {})
       /\ H([a |-> "mk", dd |-> 1, L |-> D])
       /\ UNCHANGED <<B, T, D, D2, D3, ret, bret, fl, ned, chk>>
 HandScenario ==
